@@ -28,6 +28,11 @@ pub fn main(tier: &str, seed: u64, n_override: Option<u64>) {
             // limits that cut some of the candidates off
             let mut lf: Joints = std::array::from_fn(|i| if rng.below(3) == 0 { initial[i] - 0.01 } else { initial[i] - 1.0 });
             let mut lt: Joints = std::array::from_fn(|i| if rng.below(3) == 0 { initial[i] + 0.01 } else { initial[i] + 1.0 });
+            // a limit a fraction of a milliradian beyond or short of a candidate value
+            for i in 0..6 { match rng.below(8) {
+                0 => lt[i] = to[i] + rng.range(1e-4, 9e-4) * if rng.bool() { 1.0 } else { -1.0 },
+                1 => lf[i] = from[i] + rng.range(1e-4, 9e-4) * if rng.bool() { 1.0 } else { -1.0 },
+                _ => {} } }
             let tp = 2.0 * std::f64::consts::PI;
             match rng.below(4) {
                 0 => {}
